@@ -126,6 +126,7 @@ BufferFlushed       == []["BufferFlushed"       \notin Fails]_vars
 PendingKept         == []["PendingKept"         \notin Fails]_vars
 CommittedKept       == []["CommittedKept"       \notin Fails]_vars
 OfferedOnce         == []["OnceOnly"            \notin Fails]_vars
+NoPanic             == []["NoPanic"             \notin Fails]_vars
 
 \* replay graph: only calls that change the pool (refusals are covered by the admission cases)
 Changes == pool' # pool
